@@ -50,9 +50,45 @@ var c08rejected = []string{
 	`make-array x := make([3]int, 3); return fmt.Sprint(x)`,
 	`slice3-string s := "abc"; lo, hi := 0, 1; return s[lo:hi:hi]`,
 	`negative-const-index s := []int{1}; return fmt.Sprint(s[-1])`,
+	`make-const-uint64-overflow const k uint64 = 1 << 63; s := make([]int, k); return fmt.Sprint(len(s))`,
+	`make-const-negative const k int64 = -1; s := make([]int, k); return fmt.Sprint(len(s))`,
+	`make-const-len-gt-cap s := make([]int, 3, 2); return fmt.Sprint(len(s))`,
+	`index-const-uint64-overflow s := []int{1}; const k uint64 = 1<<64 - 1; return fmt.Sprint(s[k])`,
+	`place-const-uint-overflow s := []int{1}; const k uint = 1 << 63; s[k] = 2; return fmt.Sprint(s)`,
 }
 
 var c08rich = []c08richGen{
+	// every evaluation of a literal / new / make yields a FRESH value: evaluate each site several
+	// times (loop, function called twice), write through one result, read through the others
+	{"fresh-per-evaluation", func(r *rand.Rand) string {
+		v := 1 + r.Intn(9)
+		switch r.Intn(4) {
+		case 0:
+			return fmt.Sprintf(`mk := func() *P { return &P{} }; a, b := mk(), mk(); a.X = %d; ps := []*P{}; for i := 0; i < 3; i++ { ps = append(ps, &P{}) }; ps[0].Y = %d; ps[2].X = 1; qs := []*Q{}; for i := 0; i < 2; i++ { qs = append(qs, &Q{}) }; qs[1].A[0] = %d; vs := []P{}; for i := 0; i < 2; i++ { x := P{}; x.X = i + %d; vs = append(vs, x) }; return fmt.Sprint(*a, *b, a == b, *ps[0], *ps[1], *ps[2], qs[0].A, qs[1].A, vs)`, v, v, v, v)
+		case 1:
+			return fmt.Sprintf(`el := func() []*P { return []*P{{}, {}} }; x, y := el(), el(); x[0].X = %d; y[1].Y = %d; arr := []*[2]int{}; for i := 0; i < 2; i++ { arr = append(arr, &[2]int{}) }; arr[0][1] = %d; mp := func() map[string]*P { return map[string]*P{"a": {}} }; m1, m2 := mp(), mp(); m1["a"].X = %d; return fmt.Sprint(*x[0], *x[1], *y[0], *y[1], x[0] == x[1], *arr[0], *arr[1], *m1["a"], *m2["a"])`, v, v, v, v)
+		case 2:
+			return fmt.Sprintf(`ms := []map[string]int{}; ss := [][]int{}; ns := []*int{}; as := [][2]int{}; for i := 0; i < 3; i++ { ms = append(ms, map[string]int{}); ss = append(ss, []int{0, 0}); ns = append(ns, new(int)); as = append(as, [2]int{}) }; ms[0]["a"] = %d; ss[1][0] = %d; *ns[2] = %d; as[0][1] = %d; mk := func() []int { return make([]int, 2) }; s1, s2 := mk(), mk(); s1[0] = %d; e1, e2 := []int{}, []int{}; e1 = append(e1, 1); return fmt.Sprint(ms, ss, *ns[0], *ns[1], *ns[2], as, s1, s2, e1, e2)`, v, v, v, v, v)
+		}
+		return fmt.Sprintf(`type pair struct{ a, b *P }; mk := func(n int) pair { return pair{&P{n, 0}, &P{}} }; p1, p2 := mk(1), mk(2); p1.b.Y = %d; p2.a.X += %d; st := func() interface{} { return &struct{ V []int }{} }; i1 := st().(*struct{ V []int }); i2 := st().(*struct{ V []int }); (*i1).V = append((*i1).V, %d); return fmt.Sprint(*p1.a, *p1.b, *p2.a, *p2.b, (*i1).V, (*i2).V, len((*i2).V))`, v, v, v)
+	}},
+	{"anon-struct-pointer", func(r *rand.Rand) string {
+		v := r.Intn(9)
+		return fmt.Sprintf(`x := &struct { V int; W []int }{%d, nil}; x.W = append(x.W, x.V); y := x; y.V++; ps := []*struct{ A, B int }{{1, 2}, {B: %d}}; m := map[string]*struct{ N int }{"a": {%d}}; m["a"].N++; return fmt.Sprint(x.V, x.W, (*y).V, ps[1].B, ps[0].A, m["a"].N, len(x.W))`, v, v, v)
+	}},
+	// a call site of a builtin / literal re-entered (recursion) while its arguments are being evaluated
+	{"reentrant-call-site", func(r *rand.Rand) string {
+		n := 2 + r.Intn(3)
+		switch r.Intn(4) {
+		case 0:
+			return fmt.Sprintf(`var f func(n int) []int; f = func(n int) []int { if n == 0 { return nil }; return append([]int{n * 10}, len(f(n-1)), n) }; return fmt.Sprint(f(%d), f(1))`, n)
+		case 1:
+			return fmt.Sprintf(`var g func(n int) []P; g = func(n int) []P { if n == 0 { return nil }; return append([]P{{n, len(g(n - 1))}}, g(n-1)...) }; var h func(n int) [2]int; h = func(n int) [2]int { if n == 0 { return [2]int{} }; return [2]int{n, h(n - 1)[0] + 1} }; return fmt.Sprint(g(%d), h(%d))`, n, n)
+		case 2:
+			return fmt.Sprintf(`var c func(n int) int; buf := make([]int, 8); c = func(n int) int { if n == 0 { return 0 }; return copy(buf[n:], []int{n, c(n - 1), n}) + n }; var m func(n int) map[int]int; m = func(n int) map[int]int { if n == 0 { return map[int]int{} }; return map[int]int{n: len(m(n - 1)), -n: n} }; return fmt.Sprint(c(%d), buf, m(%d))`, n, n)
+		}
+		return fmt.Sprintf(`var d func(n int) *N; d = func(n int) *N { var z *N; if n == 0 { return z }; return &N{n, d(n - 1)} }; s := 0; for x := d(%d); x != nil; x = x.Next { s = s*10 + x.V }; var ix func(n int) int; tab := []int{0, 1, 2, 3, 4, 5, 6}; ix = func(n int) int { if n == 0 { return 0 }; return tab[n] + tab[ix(n-1)%%7] }; var sl func(n int) []int; sl = func(n int) []int { if n == 0 { return tab }; return sl(n - 1)[1 : len(sl(n-1))-0] }; return fmt.Sprint(s, ix(%d), sl(%d))`, n, n, n)
+	}},
 	{"map-identity-assign", func(r *rand.Rand) string {
 		k := 3 + r.Intn(3)
 		if r.Intn(4) == 0 {
@@ -65,6 +101,9 @@ var c08rich = []c08richGen{
 		return fmt.Sprintf(`m := map[int]string{1: "a"}; var e interface{} = 7; c := make(chan int, 1); c <- 5; one := func(x string) string { return x + "!" }; return fmt.Sprint(m[%d]) + "|" + one(m[%d]) + "|" + fmt.Sprint(e.(int)) + "|" + fmt.Sprint(<-c) + "|" + fmt.Sprint(len(m[1]))`, k, k)
 	}},
 	{"nil-to-recursive-pointer", func(r *rand.Rand) string {
+		if r.Intn(3) == 0 {
+			return fmt.Sprintf(`f := func(n int) *N { if n == 0 { return nil }; return &N{V: n} }; return fmt.Sprint(f(0) == nil, f(%d).V)`, 1+r.Intn(9))
+		}
 		return fmt.Sprintf(`n2 := &N{%d, &N{3, nil}}; n2.Next = nil; var q *N = n2; q = nil; return fmt.Sprint(n2.V, n2.Next == nil, q == nil)`, r.Intn(9))
 	}},
 	{"place-xor-shift", func(r *rand.Rand) string {
